@@ -147,6 +147,12 @@ fn run_case(cfg: RtCfg, prog: &Arc<Program>, sched: &[Step], uninterrupted: Opti
             if rt.num_events_remaining() != sh.pending.len() {
                 return Err(format!("after step {si} {st:?}: num_events_remaining() = {}, undelivered events = {}", rt.num_events_remaining(), sh.pending.len()));
             }
+            if rt.num_events_scheduled() != l.len() + sh.pending.len() {
+                return Err(format!("after step {si} {st:?}: num_events_scheduled() = {}, dispatched + pending = {}", rt.num_events_scheduled(), l.len() + sh.pending.len()));
+            }
+            if !rt.was_started() {
+                return Err(format!("after step {si} {st:?}: was_started() is false on a started runtime"));
+            }
             if rt.num_events_dispatched() != l.len() {
                 return Err(format!("after step {si} {st:?}: num_events_dispatched() = {}, handlers run = {}", rt.num_events_dispatched(), l.len()));
             }
@@ -223,7 +229,7 @@ impl Property for C10 {
             "every event program of 1..={} events (delays {{0,1,t,Y,Y+1}}) x start in {{0,5}} x (n,t) in {:?} x every step schedule of 1..={} steps (3 steps for programs of up to 2 events) over \
              {{dispatch_n_events(0..3), dispatch_events_until(T) for T = every timestamp of the program and +-1ns, add_event while paused at sim_time / +1ns / midway / at / after the next pending timestamp}}, \
              followed by dispatch_all and finish; oracle: the handler log is a valid exactly-once time-ordered schedule (checked against the pending set derived from what was actually dispatched), \
-             per-step counts and cut positions, paused sim_time / num_events_remaining / num_events_dispatched, paused adds accepted, and for schedules without external adds equality with the log of the real uninterrupted run; \
+             per-step counts and cut positions, paused sim_time / num_events_remaining / num_events_dispatched / num_events_scheduled / was_started, paused adds accepted, and for schedules without external adds equality with the log of the real uninterrupted run; \
              non-trivial = schedule that cuts inside the run (not before the first or after the last event)",
             tier.pick(3, 4),
             CFGS,
